@@ -189,17 +189,27 @@ def cfgs(res, ci):
                 env.cpu.registers.scr.ns = 1
                 env.bases.clear()
             base = env.base(mode, "ram")
-            for t, olen, w, cname in isa.harvest_words():
-                for it in ([0] if not t else [0, 0x08]):
-                    res.cases += 1
-                    res.add_state(hash((ci, ms, mode, t, w, it)))
-                    out = sweep.step_word(env, base, w, bool(t), olen, it)
-                    res.transitions += 1
-                    if out[0] != "ok":
-                        judge(res, out, "%s %#x it=%#x %s %s cfg=%r" % (cname, w, it, mode, ms, cfg),
-                              {"cfg": cfg, "memsys": ms, "mode": mode, "thumb": t, "olen": olen, "word": w, "it": it})
-                    else:
-                        res.outcome("ok")
+            # a second register file with every register zero (divisors, shift amounts, addresses) and SCTLR<19> set (DZ:
+            # divide-by-zero trapping on the R profile, WXN elsewhere)
+            zr = list(base[0])
+            for k, nm in enumerate(env.plan.names):
+                if nm.startswith("R.") and nm != "R.PC":
+                    zr[k] = 0
+            zr[env.plan.index["sctlr"]] |= 1 << 19
+            zero = (tuple(zr), base[1])
+            for rf, b_ in (("ram", base), ("zero+sctlr19", zero)):
+                for t, olen, w, cname in isa.harvest_words():
+                    for it in ([0] if not t else [0, 0x08]):
+                        res.cases += 1
+                        res.add_state(hash((ci, ms, mode, t, w, it, rf)))
+                        out = sweep.step_word(env, b_, w, bool(t), olen, it)
+                        res.transitions += 1
+                        if out[0] != "ok":
+                            judge(res, out, "%s %#x it=%#x %s %s %s cfg=%r" % (cname, w, it, mode, ms, rf, cfg),
+                                  {"cfg": cfg, "memsys": ms, "mode": mode, "thumb": t, "olen": olen, "word": w, "it": it,
+                                   "regfile": rf})
+                        else:
+                            res.outcome("ok")
     res.sample({"config": cfg})
 
 
